@@ -371,3 +371,40 @@ Definition show_coarse (r : result (option reqdoc)) : val :=
   match r with Ok (Some _) => VB true | _ => VE (E "refused") end.
 
 Definition show_addrs (l : list addr) : val := VL (map (fun a => match a with Some u => VS u | None => VNone end) l).
+
+(* ---- vocabulary of the statements (Props/C10.v) ---- *)
+(* every ds:Signature node of the document, in document order *)
+Fixpoint doc_sigs (t : tree) : list tree :=
+  match t with
+  | Sg _ _ _ => [t]
+  | El _ _ _ kids => (fix go (l : list tree) : list tree := match l with [] => [] | c :: r => doc_sigs c ++ go r end) kids
+  end.
+
+(* the root element carries exactly one Signature child; it is intact, made with the key of [cert], has the single
+   reference "#" + the root's ID, and what it digests is exactly the root element without that child *)
+Definition signature_covers_root (t : tree) (cert : N) : Prop :=
+  exists n v pl kids k,
+    t = El n (Some v) pl kids /\ v <> [] /\
+    nth_error kids k = Some (Sg [(HASH :: v, El n (Some v) pl (remove_nth k kids))] cert true) /\
+    count_sigs kids = 1%nat.
+
+(* [cert] is a certificate the metadata holds for the (stripped) issuer of [d] in a key descriptor usable for signing *)
+Definition issuer_signing_cert (c : rcfg) (d : reqdoc) (cert : N) : Prop :=
+  c_md_present c = true /\
+  exists i e, d_issuer d = Some i /\ find_entity (c_md c) i = Some e /\
+    exists r kd, In r e /\ In kd r /\ use_matches SIGNING kd = true /\ In cert (kd_certs kd).
+
+(* the IssueInstant window *)
+Definition in_window (c : rcfg) (t : Z) : Prop :=
+  (c_now c - 86400 - c_slack c <= t /\ t < c_now c + 86400 + c_slack c)%Z.
+
+(* Destination is absent (or empty), or the receiver has no address for this service and binding, or it is one of them *)
+Definition destination_ok (c : rcfg) (k : kind) (b : binding) (d : reqdoc) : Prop :=
+  d_destination d = None \/ d_destination d = Some [] \/
+  receiver_addrs c (kind_service k) b = [] \/
+  exists x, d_destination d = Some x /\ In (Some x) (receiver_addrs c (kind_service k) b).
+
+(* the received text is the clean encoding of document [d] for the binding *)
+Definition carries (k : kind) (b : binding) (w : wire) (d : reqdoc) : Prop :=
+  (w = WText (Xml d) /\ b <> BSoap /\ b <> BUnknown) \/
+  (w = WSoap (SoapPart d) /\ b = BSoap /\ kind_soap k = true).
